@@ -649,7 +649,7 @@ func GenStmtFuzzScript(t *rapid.T, thorough bool) *Script {
 	s.Config.Actions = as
 	n := rapid.IntRange(3, 24).Draw(t, "proglen")
 	for i := 0; i < n; i++ {
-		k := pick(t, "opkind", "evict", "evict", "allocjob", "allocjob", "allocjob", "unevict", "checkpoint", "checkpoint", "rollback", "rollback", "convert", "end")
+		k := pick(t, "opkind", "evict", "evict", "allocjob", "allocjob", "allocjob", "unevict", "reevict", "checkpoint", "checkpoint", "rollback", "rollback", "convert", "end")
 		s.StmtProgram = append(s.StmtProgram, StmtOp{Kind: k, A: rapid.IntRange(0, 30).Draw(t, "opa"), B: rapid.IntRange(0, 5).Draw(t, "opb")})
 	}
 	return s
